@@ -21,7 +21,7 @@ CLAIMED["C15"] = ("Deductive proof of a two-state generation-stability invariant
          "4.11", CLAIMED["C06"][3])
 
 CLAIMED["C07"] = ("Deductive proof, per call and for every source sequence, predicate/equality outcome and parameter value, of the functional contract of the iterator and stream constructors, combinators and reducers against a ghost source sequence (seq, n, pos) with exact pull accounting (laziness) and sticky end; sources of the library (Slice, Counter, Repeat, Empty) are proved to implement the source protocol that is assumed of caller-supplied iterators; loops carry inductive invariants (Filter, Compact, Chunk, Reduce/Collect, Last's ring buffer).",
-         "Trusted: gvc, SMT solvers. Assumed: the source protocol for caller-supplied iterators/streams (a fixed finite sequence, sticky end, zero value with end/error); callbacks are pure. Functions not yet under contract are listed in the evidence under not_covered_clauses.",
+         "Trusted: gvc, SMT solvers. Assumed: the source protocol for caller-supplied iterators/streams (a fixed finite sequence, sticky end, zero value with end/error); callbacks are pure. Functions not under contract are listed in the evidence under not_covered_clauses; iterator.Equal and iterator.Runs are exercised only by a bounded stand-in (exhaustive over small inputs on the real code, labelled bounded, not counted as proved).",
          "4.7", CLAIMED["C06"][3])
 CLAIMED["C08"] = ("Deductive proof for the in-goroutine stream combinators and reducers: on every path on which the source or a callback fails, the error returned is that very error (ghost lasterr / the callback's result), the value result is the zero value, and the wrapper's abstraction (source position minus buffered items, buffered items themselves) is unchanged for source faults, so a retry continues where it left off; the source protocol allows a fault at every call (arbitrary error, position unchanged), which covers every fault position, kind and sequence.",
          "Trusted: gvc, SMT solvers. Assumed: the faulting-source protocol; callbacks are pure functions of their arguments. Not covered: the goroutine-backed Batch, Merge, Pipe and parallel.MapStream (fault timing relative to the consumer is a schedule).",
@@ -37,7 +37,7 @@ CLAIMED["C18"] = ("Partial deductive proof of the sequential clauses: every type
          "Trusted: gvc, the sequential channel and atomic.Pointer models, assumed contracts of sync.Map/atomic.Pointer/context. Not covered: every interleaving clause (Value racing the first Set, Fill racing Wait, concurrent first calls of a Lazy); Lazy is sync.OnceValue (trusted). Two genuine defects repaired by fix: commits.",
          "4.12", CLAIMED["C06"][3])
 CLAIMED["C19"] = ("Deductive proof of functional contracts of the pure helpers with loop invariants, pure callbacks as uninterpreted functions, ghost permutations and maps as (domain, value) functions: xslices All/Any/Chunk/Clear/Clone/Count(Func)/Equal(Func)/Fill/Filter(InPlace)/Grow/Index(Func)/Insert/Join/LastIndex(Func)/Map/Partition/Reduce/Remove/RemoveUnordered/Repeat/Reverse/Runs/Shrink/Unique(InPlace), xsort order algebra and Search, xmath Abs (per integer width, exact wrap)/Min/Max/Clamp, xmaps ToIndex/FromKeysAndValues/Set/SetFromSlice/Difference/Union/ReverseSingle, xrand rShuffle (permutation) and the samplers rSample/rSampleSlice/rSampleIterator/rSampleStream (no panic, documented result length, on a trusted contract of sampler.Next).",
-         "Trusted: gvc, SMT solvers, assumed contracts of package slices/sort. Assumed: orders are strict weak orders, callbacks pure, NaN not modelled. xerrors.WithStack is exercised only by a bounded stand-in (an in-package test of 5 error chains injected with go test -overlay; labelled bounded, never counted as proved; it found and now guards the repaired idempotence defect). Not under contract (listed in evidence): xslices Group/Compact*, xsort Merge/MergeSlices, xmaps Reverse/Intersection/Intersects; uniformity of sampling is probabilistic and not decidable here.",
+         "Trusted: gvc, SMT solvers, assumed contracts of package slices/sort. Assumed: orders are strict weak orders, callbacks pure, NaN not modelled. xerrors.WithStack, xsort.MergeSlices and xmaps.Intersection/Intersects are exercised only by bounded stand-ins (in-package tests, exhaustive over small inputs, injected with go test -overlay; labelled bounded, never counted as proved; the WithStack one found and now guards a repaired idempotence defect). Not under contract (listed in evidence): xslices Group/Compact*, xsort Merge/MergeSlices, xmaps Reverse/Intersection/Intersects; uniformity of sampling is probabilistic and not decidable here.",
          "4.13", CLAIMED["C06"][3])
 CLAIMED["C20"] = ("Partial deductive proof: SleepContext's decision logic (nil at once iff d <= 0; DeadlineTooSoonError with the right fields iff a deadline closer than d, before any timer exists; otherwise nil only through the arm of a timer created with exactly d, ctx.Err() only through the Done arm); JitterTicker argument validation (panics iff d <= 0 or jitter >= d), no panic for 0 <= jitter < d, every scheduled delay within [d-jitter, d+jitter], Stop and Reset advance the generation that pending callbacks compare against.",
          "Trusted: gvc, assumed contracts of time.NewTimer/AfterFunc/Until, context, math/rand, sync.Mutex; wall-clock behaviour of timers. Not covered: the callback body's generation check is argued on paper from Stop's proved postcondition; Stop/Reset racing a firing timer; tick spacing as observed on the channel.",
